@@ -28,8 +28,19 @@ def gen (n : Nat) : G (List String) := do
     let e : Exporter := ⟨[10, 9, 9, 9], 4000⟩
     let fd ← failingDatagram 10 77
     -- poison, run the history (poisoning again in the middle), a failing datagram, then poison and probe
-    out := out ++ ["poison " ++ pipe ++ " 40"] ++ hist.take (len / 2) ++ ["poison " ++ pipe ++ " 40"] ++ hist.drop (len / 2)
-    out := out ++ [pktLine pipe e 1700000000000000001 fd, "expect @res err", "expect @count 0", "poison " ++ pipe ++ " 64"]
+    -- split the history at an op boundary (its `expect` lines stay with their `pkt` line)
+    let mid := hist.length / 2
+    let cut := match (List.range hist.length).find? (fun i => i ≥ mid ∧ (hist.getD i "").startsWith "pkt ") with
+      | some i => i
+      | none => hist.length
+    out := out ++ ["poison " ++ pipe ++ " 40"] ++ hist.take cut ++ ["poison " ++ pipe ++ " 40"] ++ hist.drop cut
+    -- a probe right after the datagram that failed half-way (the pool's most recent objects are the ones it touched) …
+    let early ← C08.genV5Case (i + 1000)
+    let early := (early.filter fun l => l.startsWith "pkt " || l.startsWith "expect ").map fun l =>
+      if l.startsWith "pkt nf " ∧ pipe = "auto" then "pkt auto " ++ (l.drop 7).toString else l
+    out := out ++ [pktLine pipe e 1700000000000000001 fd, "expect @res err", "expect @count 0"] ++ early
+    -- … and the same again with the pool poisoned in between
+    out := out ++ [pktLine pipe e 1700000000000000002 fd, "expect @res err", "expect @count 0", "poison " ++ pipe ++ " 64"]
     -- probes: one datagram of each kind; C08's / C09's expectations are those of a fresh process
     let probe ← if i % 3 = 0 then C09.genCase i else if i % 3 = 1 then C08.genCase i else C08.genV5Case i
     -- drop the probe's own header (it would reset the pool state): keep only pkt + expect lines, rerouted to this pipe
